@@ -26,6 +26,15 @@ CHECKS = {
  "C19": dict(cat="model_checking", ref="5/C19",
    tech="TLA+ spec Path.tla (lexical resolution, Confined); TLC enumeration of all names up to MaxSegs segments and wire-limit '../' repetitions (MC_Path), one real session per name with the default file handler in a sandbox; TLC validation of recorded file-tree deltas for random byte names (Trace_Path)",
    text="TLC classifies every name over {'..','.','','a','b c'} up to the segment bound (rooted or not) and '../'-repetitions to 255 bytes; for each the harness runs a complete real upload session (0x1210, 0x1211, chunk, 0x1212, close) with the default handler in a nested sandbox working directory holding decoy files and directories, then walks the tree: everything created or modified other than file.log must resolve strictly inside ./<phone>/, and plain names must be stored with the exact content. Random byte names (NUL, 0xFF, backslash, long) are validated the other way by Trace_Path!AllConfined/PlainStored."),
+ "C04": dict(cat="model_checking", ref="5/C04",
+   tech="TLA+ spec Extract.tla (Unpack fast path + buffered drain); TLC over all partitions of fixed streams into reads (MC_Stream, invariant Seg); every cut pair replayed on the real extractor through the verif accessor; TLC trace validation of randomly re-segmented sessions (Trace_Extract); live loopback runs",
+   text="TLC explores every partition of streams of valid frames (both versions, escape-bearing and empty bodies, raw-7D checksum, in the thorough tier frames longer than the read buffer with read sizes {1,2,511,1022,1023}) into consecutive reads and checks Seg: after any prefix exactly the frames whose closing delimiter has arrived are delivered, in order, and the buffer holds the unconsumed tail. Every (i<j) pair of cut positions and the byte-by-byte segmentation are replayed on the real packageParse via service.VerifNewExtractor().Feed, comparing delivered raw frames and buffer length after each read. Random sessions fed in random read sizes are validated step by step by Trace_Extract."),
+ "C05": dict(cat="model_checking", ref="5/C05",
+   tech="TLA+ spec Extract.tla (PacketStep/Packets reassembly table with ghost 'sent' variables); TLC exhaustive terminal behaviours (MC_SubPkg: DeliveredExact, AtLastPacket, NoEarly, IgnoreBad); each behaviour replayed on the real extractor; Trace_Extract on random sessions; live loopback runs",
+   text="TLC enumerates every behaviour of a terminal sending up to two interleaved sub-packaged messages (packet 1 first, others in any order, duplicates of 2..N, impossible numbers 0 and N+1, plain messages) and checks on the specification that a completed message is delivered exactly once, exactly at the last missing packet, with the concatenation in package-number order, and that impossible numbers change nothing. Each behaviour is a script replayed on the real packageParse comparing every delivered message; random sessions with totals to 255 and bodies to 1023 bytes in random read sizes are validated by Trace_Extract; the same transfers are sent over a real socket to a live server (each packet in its own read into the reused buffer)."),
+ "C14": dict(cat="model_checking", ref="5/C14",
+   tech="TLA+ spec Extract.tla with logical clock (Expire, DueForReRequest, Body8003); TLC exhaustive behaviours with Tick steps across the 5 s / 60 s thresholds (MC_SubPkg: ExactMissing, ReReqSpacing, MustReRequest, ExpiredNeverDelivered); replay on the real extractor with Age(d); Trace_Extract",
+   text="TLC enumerates terminal behaviours with time steps of 4.9 s, 5.2 s and 55 s between frames so that transfers cross the idle and expiry thresholds from both sides, checking on the specification that a re-request names the first packet's serial and exactly the missing numbers ascending, occurs only after more than 5 s without progress or re-request and then always on the next inbound data, and that nothing is delivered from a transfer older than 60 s. Every behaviour is replayed on the real packageParse (Age(d) moves the transfer timestamps) comparing messages and the 0x8003 bodies; random sessions with age jumps and totals to 255 are validated by Trace_Extract."),
 }
 
 NA_REASON = "check not built yet (work in progress; see DESIGN.md section 10)"
